@@ -422,6 +422,9 @@ def c14(tier):
     cfg = {'modes': [0], 'exh_cap': 150 if q else 400, 'exh_len': 5, 'n_rand': 40, 'n_mut': 80, 'long': (30, 200) if q else (100, 2000)}
     gs = gen_grammars('C14', tier, 160 if q else 2000, 'values') + gen_grammars('C14r', tier, 96 if q else 1000, 'recovery')
     merge(ck, run_pipeline('C14', tier, gs, cfg, flavour='asan' if not q else 'clang'))
+    # the other context_parse overloads, and g++ as the compiler (implicit move on return differs between compilers in C++17)
+    cg = [g for g in gs if any(r.ftor == 'x' for r in g.rules)][: (16 if q else 120)] + gs[: (8 if q else 60)]
+    merge(ck, run_pipeline('C14', tier, cg, dict(cfg, modes=[0, 25]), flavour='gxx'))
     merge(ck, common.pmap(pipeline.worker, deep_specs('C14', tier)))
     # values of a type with a potentially throwing move constructor while the run-time value stack grows beyond its reserve (recorded finding D17)
     from .grammar import simple
@@ -452,7 +455,10 @@ def c16(tier):
     ck = Check('C16', tier)
     q = tier == 'quick'
     cfg = {'modes': [0, 1, 2, 5, 6, 8, 9, 12, 13], 'exh_cap': 100 if q else 300, 'exh_len': 4, 'n_rand': 30, 'n_mut': 40, 'long': (30, 100) if q else (100, 500), 'n_ws': 30, 'ws': 0.5}
-    merge(ck, run_pipeline('C16', tier, gen_grammars('C16', tier, 160 if q else 2000, 'verbose'), cfg))
+    # term sets where several terms match the same lexeme (keyword / identifier): which term is delivered must not depend on verbosity
+    overlap = [lxc.token_grammar(ts, 'tokens') for ts in lxc.fixed_termsets()[: (10 if q else 23)]]
+    overlap = [g for g in overlap if gg.classify(ref_lr1.build(g)) == 'lr1']
+    merge(ck, run_pipeline('C16', tier, gen_grammars('C16', tier, 160 if q else 2000, 'verbose') + overlap, cfg))
     # lexemes of 255..5000 bytes: what the trace shows of a lexeme must not change what the term functor gets
     from .grammar import simple
     lg = simple('S->w , | S w ,')
@@ -487,6 +493,12 @@ def c03(tier):
     blanks = [(rxc.rr.parse(t), t) for t in (b'k v', b'x *y', b'end if', b'a b+c', b'( a| b)c ', b' [a-c] {2}')]
     bigreps = [(rxc.rr.parse(t), t) for t in (b'a{128}', b'a{129}', b'[0-9a-f]{130}', b'(ab){70}', b'x[0-9]{140}y', b'(a|bc){90}', b'a{300}b')]      # copies of the repeated fragment 256 and more states apart
     merge(ck, common.pmap(rxc.judge_batch, [('C03', bigreps, True, 'clang1')]))
+    # a regex term keeps its language when it is listed after terms that share prefixes with its members (keyword before identifier, "<=" before "<|>|="):
+    # fixed term sets that work today, judged by the lexer reference
+    from .grammar import Term
+    sets = [[Term('s', 'if'), Term('r', '[a-z]+', name='word')], [Term('s', '<='), Term('r', '<|>|=', name='rel')], [Term('s', 'else'), Term('s', 'elif'), Term('r', '[a-z_][a-z_0-9]*', name='ident')],
+            [Term('c', '='), Term('s', '=='), Term('r', '=>|=', name='arrow')], [Term('s', 'ab'), Term('r', 'a', name='a')]]
+    merge(ck, [lxc.worker({'seed': 3, 'termsets': [[t.to_json() for t in ts] for ts in sets], 'modes': [0, 3], 'n_inputs': 150, 'corpus': True})])
     ct = blanks + rxc.gen_patterns(rnd, 64 if q else 1024, max_positions=20) + [x for x in rxc.rr.hand_corpus() if rxc.rr.positions_count(x[0]) <= 40]
     merge(ck, common.pmap(rxc.judge_ct, [('C03', c, 'clang', common.seed() + i) for i, c in enumerate(chunks(ct, 16))]))
     ck.cov['rule'] = ('patterns generated from ASTs over every documented construct (plus a fixed corpus: documentation/tests/examples, all ASTs with <= 2 primaries over {a,b}, 600 fixed-seed patterns); '
@@ -507,7 +519,7 @@ def c17(tier):
     alpha = b'ab()[]{}*+?|\\x-^.09\x00\xff \x7f"'
     rb = [bytes(rnd.choice(alpha) for _ in range(rnd.randint(0, 14))) for _ in range(20000 if q else 600000)]
     merge(ck, common.pmap(rxc.judge_random_bytes, [(c, 'clang1') for c in chunks(rb, 5000)]))
-    merge(ck, common.pmap(ctor_reject_worker, ctor_reject_cases(rnd, 30 if q else 160)))
+    merge(ck, common.pmap(ctor_reject_worker, ctor_reject_cases(rnd, 34 if q else 160)))
     ck.cov['rule'] = ('(a) strings broken in exactly the ways the property names (unbalanced group, unterminated set, dangling/empty repetition, empty alternative, leading quantifier, raw non-printable byte) '
                       'are fed to the real pattern parser, dfa_builder and dfa_size_analyzer through a bounds-monitoring buffer: all must be refused and nothing outside the pattern may be read; '
                       '(b) arbitrary strings over the meta-characters: memory safety of the scan only (no verdict on acceptance); (c) generated programs with regex_term<bad>, regex::expr<bad>, rules naming '
@@ -552,6 +564,8 @@ def ctor_reject_cases(rnd, n):
         ('undeclared-unnamed-regex-term-2', "constexpr char pa[] = \"[0-9]+\"; constexpr char pb[] = \"[a-z]+\"; constexpr regex_term<pa> ta(2, associativity::rtol); constexpr regex_term<pb> tb(3, associativity::no_assoc); constexpr nterm<int> S(\"S\");\n#define VF_P parser p(S, terms(tb), nterms(S), rules(S(ta, tb) >= [](auto, auto){ return 1; }))", "constexpr char pa[] = \"[0-9]+\"; constexpr char pb[] = \"[a-z]+\"; constexpr regex_term<pa> ta(2, associativity::rtol); constexpr regex_term<pb> tb(3, associativity::no_assoc); constexpr nterm<int> S(\"S\");\n#define VF_P parser p(S, terms(tb, ta), nterms(S), rules(S(ta, tb) >= [](auto, auto){ return 1; }))"),
         ('undeclared-term-object-with-precedence', "constexpr char_term ta('a', 1, associativity::ltor); constexpr string_term tb(\"bb\", 2, associativity::rtol); constexpr nterm<int> S(\"S\");\n#define VF_P parser p(S, terms(ta), nterms(S), rules(S(ta, tb) >= [](auto, auto){ return 1; }))", "constexpr char_term ta('a', 1, associativity::ltor); constexpr string_term tb(\"bb\", 2, associativity::rtol); constexpr nterm<int> S(\"S\");\n#define VF_P parser p(S, terms(ta, tb), nterms(S), rules(S(ta, tb) >= [](auto, auto){ return 1; }))"),
         ('undeclared-custom-term', "constexpr custom_term ta(\"ta\", [](auto sv){ return 1; }); constexpr custom_term tb(\"tb\", [](auto sv){ return 2; }); constexpr nterm<int> S(\"S\");\nstruct Lx { template<class It, class ES> constexpr recognized_term match(match_options, source_point, It s, It e, ES&) const { return s == e ? recognized_term{} : recognized_term(0, 1); } };\n#define VF_P parser p(S, terms(ta), nterms(S), rules(S(ta, tb) >= [](auto, auto){ return 1; }), use_lexer<Lx>{})", "constexpr custom_term ta(\"ta\", [](auto sv){ return 1; }); constexpr custom_term tb(\"tb\", [](auto sv){ return 2; }); constexpr nterm<int> S(\"S\");\nstruct Lx { template<class It, class ES> constexpr recognized_term match(match_options, source_point, It s, It e, ES&) const { return s == e ? recognized_term{} : recognized_term(0, 1); } };\n#define VF_P parser p(S, terms(ta, tb), nterms(S), rules(S(ta, tb) >= [](auto, auto){ return 1; }), use_lexer<Lx>{})"),
+        ('undeclared-regex-term-long-common-prefix', "constexpr char pa[] = \"(January|February|March|April|May|June|July|August)[0-9]+\"; constexpr char pb[] = \"(January|February|March|April|May|June|July|August)[a-z]+\"; constexpr regex_term<pa> ta(\"ta\"); constexpr regex_term<pb> tb(\"tb\"); constexpr nterm<int> S(\"S\");\n#define VF_P parser p(S, terms(ta), nterms(S), rules(S(tb) >= [](auto){ return 1; }))", "constexpr char pa[] = \"(January|February|March|April|May|June|July|August)[0-9]+\"; constexpr char pb[] = \"(January|February|March|April|May|June|July|August)[a-z]+\"; constexpr regex_term<pa> ta(\"ta\"); constexpr regex_term<pb> tb(\"tb\"); constexpr nterm<int> S(\"S\");\n#define VF_P parser p(S, terms(ta, tb), nterms(S), rules(S(tb) >= [](auto){ return 1; }))"),
+        ('undeclared-string-term-long-common-prefix', "constexpr nterm<int> S(\"S\");\n#define VF_P parser p(S, terms(\"preprocessor_directive_conditional_ifdef_x\"), nterms(S), rules(S(\"preprocessor_directive_conditional_ifdef_x\", \"preprocessor_directive_conditional_ifdef_y\") >= [](auto, auto){ return 1; }))", "constexpr nterm<int> S(\"S\");\n#define VF_P parser p(S, terms(\"preprocessor_directive_conditional_ifdef_x\", \"preprocessor_directive_conditional_ifdef_y\"), nterms(S), rules(S(\"preprocessor_directive_conditional_ifdef_x\", \"preprocessor_directive_conditional_ifdef_y\") >= [](auto, auto){ return 1; }))"),
         ('empty-nterm-name', "#define VF_P nterm<int> S(\"\")", "#define VF_P nterm<int> S(\"S\")"),
     ]
     k = 0
@@ -622,6 +636,12 @@ def c08(tier):
     q = tier == 'quick'
     cfg = {'modes': [0, 1, 7, 9, 11], 'exh_cap': 200 if q else 500, 'exh_len': 5, 'n_rand': 40, 'n_mut': 200 if q else 500, 'long': (20, 60) if q else (60, 300), 'n_ws': 40, 'ws': 0.4, 'n_raw': 4}
     merge(ck, run_pipeline('C08', tier, gen_grammars('C08', tier, 160 if q else 2000, 'recovery'), cfg))
+    # a syntax error under a stack of more than 65535 entries: the states accepting the error symbol lie far below the top
+    from .grammar import simple
+    dg_ = simple('S->L ,\nS->error ,\nS->( error )\nL->x L | x | ( S )'); dg_.note = 'c08:deep'
+    n_ = 66000 if q else 140000
+    deep_in = [b'x' * n_ + b'(,', b'x' * n_ + b',', b'x' * n_ + b') ,', b'x' * 65534 + b'(,', b'x' * 65535 + b'( ,', b'(' + b'x' * n_ + b'( )', b'x' * 10 + b'( ,']
+    merge(ck, common.pmap(pipeline.worker, [{'prop': 'C08', 'grammars': [dg_.to_json()], 'seed': 1, 'flavour': 'clang1', 'cfg': {'modes': [0, 1], 'timeout': 900}, 'explicit_inputs': [[d.hex() for d in deep_in]]}]))
     ck.cov['rule'] = ('grammars with the error symbol in statement-list, bracketed, first/last and nested positions (fixed corpus + error rules added to random LR(1) grammars); inputs: all short strings and '
                       'derivable inputs with tokens inserted/deleted/replaced/duplicated; observed result, surviving values (functor log), error reports and verbose recovery steps are compared with a '
                       'reference driver that implements exactly the documented algorithm; distinct_nontrivial = distinct (grammar,input) with at least one syntax error')
@@ -648,7 +668,7 @@ def c04(tier):
     ck = Check('C04', tier)
     q = tier == 'quick'
     rnd = random.Random(common.seed() * 4441 + 4)
-    modes = [0, 7, 8, 9, 3, 4]
+    modes = [0, 7, 8, 9, 3, 4, 14]      # 14: a string_buffer that was moved and copied after construction
     specs = []
     fixed = lxc.fixed_termsets()
     for i, c in enumerate(chunks(fixed, 6)):
@@ -755,7 +775,7 @@ def c06(tier):
     specs = []
     for fl in (['asan'] if q else ['asan', 'gasan']):
         for i, c in enumerate(chunks(gs, 4)):
-            specs.append({'seed': common.seed() * 13 + i, 'grammars': [g.to_json() for g in c], 'flavour': fl, 'modes': [0, 3, 4, 10], 'tier': tier, 'timeout': 200 if q else 600})
+            specs.append({'seed': common.seed() * 13 + i, 'grammars': [g.to_json() for g in c], 'flavour': fl, 'modes': [0, 3, 4, 10, 14], 'tier': tier, 'timeout': 200 if q else 600})
     n = 70000 if q else 300000
     deep_inputs = [[b'(' * n + b'a' + b')' * n, b'(' * n + b'a' + b')' * (n - 1), b'(' * n], [b'a' * (2 * n)], [b'a' * (4 * n)], [b'i+' * n + b'(i+i)', b'i+' * n]]
     # a reduction at every stack depth while the stacks grow: every growth step (reallocation) of the run-time stacks happens in the middle of a reduction
